@@ -1,0 +1,23 @@
+//go:build verif
+
+package health
+
+import (
+	gohealth "github.com/InVisionApp/go-health/v2"
+)
+
+// VerifHealthCheckCompleted feeds one synthetic go-health state to healthCheckCompleted
+// and reports whether (and how) the callback was invoked.
+func VerifHealthCheckCompleted(failureThreshold int, contiguousFailures int64, status string, stopped bool) (called, ok, fatal bool) {
+	p := &Prober{probe: Probe{FailureThreshold: failureThreshold}}
+	p.onCheckEndFunc = func(o, f bool, _ string) { called, ok, fatal = true, o, f }
+	p.stopped.Store(stopped)
+	p.healthCheckCompleted(&gohealth.State{ContiguousFailures: contiguousFailures, Status: status})
+	return
+}
+
+// VerifHttpDefaults runs validateAndSetHttpDefaults on a copy.
+func VerifHttpDefaults(h HttpProbe) HttpProbe {
+	h.validateAndSetHttpDefaults()
+	return h
+}
